@@ -160,7 +160,7 @@ class DrawSource:
         self.cfg = cfg
         self.run = run
         w = cfg["script"]
-        self.table = [(k, w.get(k, 0.0)) for k in ("uniform", "edge", "near", "near_last", "duplicate", "lattice", "far", "into")]
+        self.table = [(k, w.get(k, 0.0)) for k in ("uniform", "edge", "near", "near_last", "duplicate", "lattice", "far", "into", "march")]
         self.grid = cfg.get("grid", 4)
         self.kinds = {}
 
@@ -176,7 +176,7 @@ class DrawSource:
         r = self.r
         kind = pick_weighted(r, self.table)
         acc = self.run.accepted_units
-        if kind in ("near", "near_last", "duplicate", "far", "into") and not self.run.node_list:
+        if kind in ("near", "near_last", "duplicate", "far", "into", "march") and not self.run.node_list:
             kind = "uniform"
         self.run.faults["script_" + kind] += 1
         if kind == "uniform":
@@ -199,6 +199,31 @@ class DrawSource:
             v = [r.gauss(0, 1) for _ in range(3)]
             n = math.sqrt(sum(x * x for x in v)) or 1.0
             tgt = [base[i] + rad * v[i] / n for i in range(3)] + list(base[3:6])
+            return self._units(tgt)
+        if kind == "march":
+            # a march in rows (serpentine): every step goes on from the newest node and leaves every older node farther away
+            # than the step itself, so the newest node is the nearest one and the branch grows by one link per iteration
+            base = self.run.node_list[-1]
+            stt = self.kinds.setdefault("march", {})
+            bx, by = self.cfg["bounds"][0], self.cfg["bounds"][1]
+            lo = self.cfg["min"] * 1.2
+            hi = min(self.cfg["max"] * 0.24, lo * 3)
+            if "dir" not in stt:
+                stt["dir"] = 1.0
+                stt["row"] = 1.0 if base[1] < (by[0] + by[1]) / 2 else -1.0
+            rad = r.uniform(lo, hi)
+            x, y = base[0] + stt["dir"] * rad, base[1]
+            z = base[2]
+            if not (bx[0] + 0.03 * (bx[1] - bx[0]) <= x <= bx[1] - 0.03 * (bx[1] - bx[0])):
+                stt["dir"] = -stt["dir"]
+                x, y = base[0], base[1] + stt["row"] * 4 * hi
+                if not (by[0] + 0.03 * (by[1] - by[0]) <= y <= by[1] - 0.03 * (by[1] - by[0])):
+                    # out of rows on this level: next level, rows back the other way
+                    bz = self.cfg["bounds"][2]
+                    stt["row"] = -stt["row"]
+                    stt.setdefault("lvl", 1.0 if base[2] < (bz[0] + bz[1]) / 2 else -1.0)
+                    y, z = base[1], base[2] + stt["lvl"] * 4 * hi
+            tgt = [x, y, z] + list(base[3:6])
             return self._units(tgt)
         if kind == "near_last":
             # a step of connectable length away from the most recently inserted node: grows long chains (deep trees)
@@ -602,6 +627,20 @@ class RRTRun:
                 x = parent[x]
             else:
                 raise Violation("T2", "parent links from %r never reach the root (cycle)" % (p,), {})
+        # ... and through each stored node's OWN parent objects (every node is stored with a private copy of its ancestry, and
+        # that chain is what findPath walks): it must be the same chain of poses, link by link, up to the root
+        for n, p in zip(nodes, pos):
+            x, xp, hops = n, p, 0
+            while x.getParent() is not None:
+                x = x.getParent()
+                hops += 1
+                if hops > len(pos) + 1 or pos6(x.getPosition()) != parent[xp]:
+                    raise Violation("T2", "the parent objects stored with %r lead, after %d links, to %r; the tree's parent links lead to %r" % (
+                        p, hops, pos6(x.getPosition()), parent[xp]), {})
+                xp = parent[xp]
+            if parent[xp] is not None:
+                raise Violation("T2", "the parent objects stored with %r end after %d links at %r, which is not the root (the tree's "
+                                "parent links go on to %r)" % (p, hops, xp, parent[xp]), {})
         # ---- insertion-order replay (T5, T6) -------------------------------------------------
         segs = []
         new_events = self.log.events[self._log_mark:]      # what this call added to the log
@@ -777,6 +816,10 @@ class RRTRun:
             P["path_depth_ge14"] += 1
         if len(chain) >= 30:
             P["path_depth_ge30"] += 1
+        if len(chain) >= 100:
+            P["path_depth_ge100"] += 1
+        if len(chain) >= 257:
+            P["path_depth_ge257"] += 1
         if cfg["iterations"] == 1 and n_iter == 1:
             P["iterations_1"] += 1
         if cfg["iterations"] == 2 and n_iter == 2:
@@ -796,6 +839,10 @@ class RRTRun:
                 x = parent[x]
                 dpt += 1
             depth[p] = dpt
+        if depth and max(depth.values()) >= 100:
+            P["tree_depth_ge100"] += 1
+        if depth and max(depth.values()) >= 257:
+            P["tree_depth_ge257"] += 1
         hist = tuple(sorted(__import__("collections").Counter(depth.values()).items()))
         self.states.add(digest_int(hist))
         self.n_nontrivial = 1 if n_iter >= 2 else 0
@@ -856,6 +903,14 @@ def gen_trace(seed):
         dmin = r.choice([0.05, 0.1])
         dmax = r.choice([0.6, 1.0, 1.5])
         iters = r.randint(20, 160)
+        if r.random() < 0.04:
+            # a marathon chain: every step from the newest node, only the nearest neighbour examined, the whole budget of 400
+            # iterations -- branches hundreds of links deep (anything that caps, trims or recurses over the ancestry shows
+            # only here; one such run costs 10-20 s, hence rare)
+            script = {"march": 1.0, "marathon": 0.0}
+            iters = r.randint(300, 400)
+            dmin = 0.05
+            dmax = r.choice([1.0, 1.5])
     elif style == "adversarial":
         script = {"uniform": 2.0, "near": 3.0, "duplicate": 1.5, "into": 3.0, "edge": 1.0, "lattice": 1.0}
     cfg = {"mode": mode, "origin": origin, "bounds": bounds, "min": dmin, "max": dmax,
@@ -864,6 +919,10 @@ def gen_trace(seed):
            "dmode": 0, "iterations": iters, "script": script, "grid": r.choice([3, 4, 5]), "style": style,
            "goal": [round(r.uniform(-B, B), 3) for _ in range(3)] + [round(r.uniform(-rot, rot), 3) if rot else 0.0 for _ in range(3)]}
     n_boxes = pick_weighted(r, [(0, 2.0), (r.randint(1, 4), 4.0), (r.randint(5, 12), 2.0)])
+    if "marathon" in script:
+        cfg["k"] = 1
+        cfg["marathon"] = True
+        n_boxes = 0          # nothing in the way of the march
     boxes = []
     for _ in range(n_boxes):
         b = _rand_box(r, B, origin, B / 3)
@@ -873,7 +932,7 @@ def gen_trace(seed):
         cfg["dmode"] = 1 if r.random() < 0.35 else 0
         cfg["boxes"] = boxes
         cfg["box_decl"] = r.choice(["list", "list", "tm", "tm_scratch"])
-        if r.random() < 0.15:
+        if r.random() < 0.15 and not cfg.get("marathon"):
             # terrain: blocks of xc x yc from z=0.1 up to a drawn height; keep the start pose above it
             xc = r.choice([1.0, 2.0])
             nx, ny = r.randint(1, 3), r.randint(1, 3)
@@ -890,6 +949,8 @@ def gen_trace(seed):
                 cfg["max"] = 100.0       # arc distance includes rotation error
     else:
         ck = pick_weighted(r, [("boxes", 4.0), ("spheres", 2.0), ("halfspace", 1.0), ("none", 1.0)])
+        if cfg.get("marathon"):
+            ck = "none"
         if ck == "boxes":
             coll = {"kind": "boxes", "boxes": boxes}
         elif ck == "spheres":
@@ -934,7 +995,7 @@ def gen_trace(seed):
         nb = _rand_box(r, B, cfg["origin"], B / 3)
         if nb:
             cfg["second"]["replace_box"] = nb
-    cfg["budget"] = 200 * iters + 600
+    cfg["budget"] = (40 if cfg.get("marathon") else 200) * iters + 600
     return {"property": PROP, "config": cfg, "draw_seed": seed}
 
 
@@ -966,7 +1027,7 @@ ASSUMPTIONS = [
 EXPECTED_PROBES = ["rejected_for_min", "rejected_for_max", "rejected_for_collision", "rejected_exact_duplicate",
                    "tie_in_first_nearest", "tie_at_kth_neighbour", "parent_not_nearest", "cheaper_candidate_collides",
                    "k_exceeds_tree_size", "terrain_generated", "iterations_1", "iterations_2", "path_goal_nearest_root",
-                   "path_depth_ge4", "path_depth_ge14", "path_depth_ge30", "second_call_on_same_planner", "obstruction_replaced_between_calls", "goal_is_rounded_tree_node", "caller_edited_its_origin", "caller_edited_its_path", "custom_callbacks", "builtin_pipeline", "arc_distance_mode"]
+                   "path_depth_ge4", "path_depth_ge14", "path_depth_ge30", "path_depth_ge100", "tree_depth_ge100", "tree_depth_ge257", "second_call_on_same_planner", "obstruction_replaced_between_calls", "goal_is_rounded_tree_node", "caller_edited_its_origin", "caller_edited_its_path", "custom_callbacks", "builtin_pipeline", "arc_distance_mode"]
 
 
 def warmup():
